@@ -271,4 +271,4 @@ def single_cancel_model(ctx, rep, rule):
         rep.check(hit and loop_ok is not False, rule, "%s:%d cancel is part of a tidy" % (f.module.relpath, n.lineno),
                   f.qualname, "`%s`" % src(stmt_of(n)),
                   "a task is cancelled without being awaited (or outside the analysed owners): the canceller "
-                  "may cancel twice or leave before the task has ended")
+                  "may leave before the task has ended")
